@@ -596,7 +596,7 @@ func TestEnum(t *testing.T) {
 	})
 }
 
-func TestReplay(t *testing.T) { core.Replay(t, dictCheck, augCheck, inlineCheck) }
+func TestReplay(t *testing.T) { core.Replay(t, dictCheck, augCheck, inlineCheck, subsetCheck) }
 
 func bitsFromString(s string) ref.Bits {
 	b := make(ref.Bits, len(s))
